@@ -18,6 +18,11 @@ class R(random.Random):
     def int(self, a, b):
         return self.randint(a, b)
 
+    level = 1.0  # adversity level of the message being built: probability scale for each malformed choice
+
+    def adv(self, p=1.0):
+        return self.random() < p * self.level
+
     def bytes_(self, max_size):
         n = self.randint(0, max_size) if self.random() < 0.7 else self.randint(0, 3)
         return bytes(self.getrandbits(8) for _ in range(n))
@@ -114,14 +119,16 @@ def _body(rnd, max_size=64):
 
 def framing(rnd, is_request: bool):
     """returns dict(kind=..., lines=[raw lines with {n}], cls=[labels])"""
-    kind = rnd.pick(["none", "none", "cl", "cl", "cl", "te", "te", "both", "weird"])
+    kind = rnd.pick(["none", "none", "cl", "cl", "cl", "te", "te"])
+    if rnd.adv(0.25):
+        kind = rnd.pick(["both", "weird"])
     lines, cls = [], []
     if kind in ("cl", "both"):
-        c, l = rnd.pick(CL_VARIANTS) if rnd.int(0, 2) else CL_VARIANTS[0]
+        c, l = rnd.pick(CL_VARIANTS) if rnd.adv(0.7) else CL_VARIANTS[0]
         lines += l
         cls.append(c)
     if kind in ("te", "both"):
-        c, l = rnd.pick(TE_VARIANTS) if rnd.int(0, 2) else TE_VARIANTS[0]
+        c, l = rnd.pick(TE_VARIANTS) if rnd.adv(0.7) else TE_VARIANTS[0]
         if rnd.bool():
             lines = l + lines
         else:
@@ -152,8 +159,10 @@ def body_wire(rnd, cls):
         if wire == "raw-empty":
             body, wire = b"", "raw"
     cuts = sorted(rnd.int(0, max(len(body), 1)) for _ in range(rnd.int(0, 3)))
-    style = rnd.pick(["plain", "plain", "plain", "ext", "upper", "lead0", "trailers", "ext-quoted"])
-    delta = rnd.pick([0, 0, 0, 0, 0, 0, -1, 1, 5])  # declared length minus actual (raw only)
+    style = rnd.pick(["plain", "plain", "plain", "ext", "upper", "lead0", "ext-quoted"])
+    if rnd.adv(0.1):
+        style = "trailers"
+    delta = rnd.pick([-1, 1, 5]) if rnd.adv(0.3) else 0  # declared length minus actual (raw only)
     return {"body": body, "wire": wire, "cuts": cuts, "style": style, "delta": delta}
 
 
@@ -194,25 +203,35 @@ def _fill(lines, n):
     return [l.replace(b"{n}", b"%d" % n) for l in lines]
 
 
-def request(rnd, mode="regular", allow_bad=True):
+LEVELS = [0.0, 0.0, 0.1, 0.1, 0.4, 1.0]
+
+
+def request(rnd, mode="regular", allow_bad=True, level=None):
+    rnd.level = rnd.pick(LEVELS) if level is None else level
     method = rnd.pick([b"GET", b"GET", b"POST", b"POST", b"PUT", b"HEAD", b"OPTIONS", b"DELETE", b"post", b"M-SEARCH"])
+    if rnd.adv(0.1):
+        method = rnd.pick([b"head", b"Head", b"get", b"HEAD\x00"])
     host = rnd.pick(HOSTS + [HOSTS[0]] * 3)
     path = rnd.pick([b"/", b"/a", b"/a/b?c=d", b"/%7e", b"/x;y", b"/caf\xc3\xa9", b"//double", b"/?q=http://z/"])
-    form = rnd.pick(["abs", "abs", "abs", "origin", "origin-nohost", "star"]) if mode == "regular" else rnd.pick(
-        ["origin", "origin", "origin", "abs", "origin-nohost"])
+    form = rnd.pick(["abs", "abs", "abs", "origin", "star"]) if mode == "regular" else rnd.pick(
+        ["origin", "origin", "origin", "abs"])
+    if rnd.adv(0.15):
+        form = "origin-nohost"
     if form == "star":
         method = b"OPTIONS"
-    version = rnd.pick([b"HTTP/1.1"] * 6 + [b"HTTP/1.0", b"HTTP/1.0", b"HTTP/1.2", b"HTTP/0.9", b"http/1.1"])
-    sep = rnd.pick([b" "] * 8 + [b"  ", b"\t", b" \t "])
-    eol = rnd.pick([b"\r\n"] * 8 + [b"\n"])
-    lead = rnd.pick([b""] * 10 + [b"\r\n"])  # empty line before the request
+    version = rnd.pick([b"HTTP/1.1"] * 6 + [b"HTTP/1.0"])
+    if rnd.adv(0.2):
+        version = rnd.pick([b"HTTP/1.2", b"HTTP/0.9", b"http/1.1", b"HTTP/1.10"])
+    sep = rnd.pick([b"  ", b"\t", b" \t "]) if rnd.adv(0.2) else b" "
+    eol = b"\n" if rnd.adv(0.15) else b"\r\n"
+    lead = b"\r\n" if rnd.adv(0.1) else b""  # empty line before the request
     nf = rnd.int(0, 4)
     fields = [_ord_field(rnd) for _ in range(nf)]
     fr = framing(rnd, True)
     bw = body_wire(rnd, fr["cls"])
     cls = list(fr["cls"])
     extra = []
-    if allow_bad and rnd.int(0, 5) == 0:
+    if allow_bad and rnd.adv(0.3):
         c, l = rnd.pick(BAD_FIELD_LINES)
         extra.append(l)
         cls.append(c)
@@ -246,9 +265,14 @@ def req_bytes(r):
     return head + render_body(r["bw"])
 
 
-def response(rnd, allow_bad=True):
-    status = rnd.pick([200] * 8 + [204, 304, 404, 500, 301, 100, 103, 206, 199])
-    version = rnd.pick([b"HTTP/1.1"] * 6 + [b"HTTP/1.0", b"HTTP/1.0", b"HTTP/1.2"])
+def response(rnd, allow_bad=True, level=None):
+    rnd.level = rnd.pick(LEVELS) if level is None else level
+    status = rnd.pick([200] * 8 + [204, 304, 404, 500, 301, 206])
+    if rnd.adv(0.15):
+        status = rnd.pick([100, 103, 199, 600, 999])
+    version = rnd.pick([b"HTTP/1.1"] * 6 + [b"HTTP/1.0", b"HTTP/1.0"])
+    if rnd.adv(0.1):
+        version = rnd.pick([b"HTTP/1.2", b"HTTP/2.0", b"http/1.1"])
     reason = rnd.pick([b"OK", b"OK", b"", b"Not Found", b"multi word reason", b"caf\xe9"])
     nf = rnd.int(0, 3)
     fields = [_ord_field(rnd) for _ in range(nf)]
@@ -256,15 +280,15 @@ def response(rnd, allow_bad=True):
     bw = body_wire(rnd, fr["cls"])
     cls = list(fr["cls"])
     extra = []
-    if allow_bad and rnd.int(0, 7) == 0:
+    if allow_bad and rnd.adv(0.3):
         c, l = rnd.pick(BAD_FIELD_LINES)
         extra.append(l)
         cls.append(c)
     conn = rnd.pick([None] * 6 + [b"Connection: close", b"Connection: keep-alive"])
     if conn:
         extra.append(conn)
-    eol = rnd.pick([b"\r\n"] * 8 + [b"\n"])
-    close_after = rnd.bool()
+    eol = b"\n" if rnd.adv(0.15) else b"\r\n"
+    close_after = rnd.int(0, 3) == 0
     return {"status": status, "version": version, "reason": reason, "fields": fields, "framing": fr["lines"],
             "extra": extra, "bw": bw, "cls": cls, "eol": eol, "close_after": close_after}
 
